@@ -518,6 +518,7 @@ class World:
                 self._bus_unsub = hass.bus.async_listen("*", self._on_bus_event)  # MATCH_ALL
                 for ent, (sval, attrs) in sorted((self.cfg.get("initial_states") or {}).items()):
                     hass.states.async_set(ent, sval, attrs or {})
+                self.census_pre_setup = self.census()
                 conf = {"pyscript": self.pyscript_conf()}
                 ok = await async_setup_component(hass, "pyscript", conf)
                 if not ok:
